@@ -122,14 +122,14 @@ def ScanNear (E : ℝ → ℝ) : LP → List LP → List LP → Prop
 
 theorem ScanNear.length {E} : ∀ {ps : List LP} {s : LP} {rs : List LP}, ScanNear E s ps rs → rs.length = ps.length
   | [], _, _, h => by simp only [ScanNear] at h; simp [h]
-  | _ :: ps, _, _, h => by
+  | _ :: _, _, _, h => by
     obtain ⟨r, rs', rfl, _, h'⟩ := h
     simp [ScanNear.length h']
 
 /-- the exact-model scan is an admissible run -/
 theorem scanNear_model (E : ℝ → ℝ) : ∀ (ps : List LP) (s : LP), ScanNear E s ps (lnCumsumFrom E s ps)
   | [], _ => rfl
-  | p :: ps, s => ⟨_, _, rfl, addNear_model .., scanNear_model E ps _⟩
+  | _ :: ps, _ => ⟨_, _, rfl, addNear_model .., scanNear_model E ps _⟩
 
 theorem ScanNear.error {E δ} (h : ApproxExp E δ) (hδ : δ < 1) : ∀ (ps : List LP) (s : LP) (rs : List LP) (T : ℝ) (j : ℕ),
     0 ≤ T → |lin s - T| ≤ (δ + 2 * j * dropTol) * T → ScanNear E s ps rs → ∀ (k : ℕ) (r : LP), rs[k]? = some r →
